@@ -428,11 +428,12 @@ func (s *socket) clearTransport() {
 // Possible reasons: `ping timeout`, `client error`, `parse error`,
 // `transport error`, `server close`, `transport close`
 func (s *socket) OnClose(reason string, description ...error) {
-	if s.ReadyState() != "closed" {
+	// test and set in one step: two close causes racing here must not both emit "close"
+	if prev, _ := s.readyState.Swap("closed").(string); prev != "closed" {
 		verifhook.At("socket.onclose.tested", s.id)
 		description = append(description, nil)
 
-		s.SetReadyState("closed")
+		socket_log.Debug("readyState updated from %s to %s", prev, "closed")
 
 		// clear timers
 		utils.ClearTimeout(s.pingIntervalTimer.Load())
